@@ -59,10 +59,22 @@ pub fn mutated_self_field_of_target(target: &Expr) -> Option<String> {
 
 /// names assigned (`x = ..`, `x op= ..`; a mutated field `f` of `self` is the name `self.f`) and names declared by
 /// `let` inside
-struct AssignFinder { assigned: Vec<String>, declared: Vec<String> }
+struct AssignFinder { assigned: Vec<String>, declared: Vec<String>, inout_fns: Vec<(String, Vec<usize>)> }
 impl AssignFinder {
     fn target(&mut self, left: &Expr) {
-        let n = match path_ident(left) { Some(n) => Some(n), None => mutated_self_field_of_target(left).map(|f| format!("self.{}", f)) };
+        let n = match path_ident(left) {
+            Some(n) => Some(n),
+            None => match mutated_self_field_of_target(left) {
+                Some(f) => Some(format!("self.{}", f)),
+                None => match strip_paren(left) {
+                    // `x.f = ..` for a local struct value `x`
+                    Expr::Field(f) => path_ident(&f.base),
+                    // `*x.m(..) = ..` (a place method of the local struct value `x`)
+                    Expr::Unary(u) if matches!(u.op, syn::UnOp::Deref(_)) => match strip_paren(&u.expr) { Expr::MethodCall(mc) => path_ident(&mc.receiver), _ => None },
+                    _ => None,
+                },
+            },
+        };
         if let Some(n) = n { if !self.assigned.contains(&n) { self.assigned.push(n); } }
     }
 }
@@ -80,6 +92,18 @@ impl<'ast> Visit<'ast> for AssignFinder {
             if let Some(f) = self_field(&m.receiver) { let n = format!("self.{}", f); if !self.assigned.contains(&n) { self.assigned.push(n); } }
         }
         syn::visit::visit_expr_method_call(self, m);
+    }
+    fn visit_expr_call(&mut self, c: &'ast syn::ExprCall) {
+        // `Self::make_castle(active, ..)`: a `&mut` struct argument is modified
+        if let Expr::Path(p) = &*c.func {
+            if let Some(last) = p.path.segments.last() {
+                let name = last.ident.to_string();
+                if let Some((_, pos)) = self.inout_fns.iter().find(|(n, _)| *n == name).cloned() {
+                    for i in pos { if let Some(a) = c.args.iter().nth(i) { if let Some(n) = path_ident(a) { if !self.assigned.contains(&n) { self.assigned.push(n); } } } }
+                }
+            }
+        }
+        syn::visit::visit_expr_call(self, c);
     }
     fn visit_pat_ident(&mut self, p: &'ast syn::PatIdent) { self.declared.push(p.ident.to_string()); }
     fn visit_expr_closure(&mut self, _: &'ast syn::ExprClosure) {}
@@ -159,6 +183,7 @@ impl<'w> FnTr<'w> {
                         Expr::Assign(a) => self.tr_assign(e, &a.left, None, &a.right, &mut out)?,
                         Expr::Binary(b) if is_compound(&b.op) => self.tr_assign(e, &b.left, Some(&b.op), &b.right, &mut out)?,
                         Expr::MethodCall(mc) => self.tr_method_stmt(e, mc, &mut out)?,
+                        Expr::Call(_) => self.tr_call_stmt(e, &mut out)?,
                         _ => return Err(self.err(e, "unsupported expression statement")),
                     }
                 }
@@ -179,11 +204,21 @@ impl<'w> FnTr<'w> {
     }
 
     fn ret_line(&self, v: &Ex) -> String {
-        if !self.self_mutated.is_empty() {
-            // `&mut self`: the modified fields are part of the result
+        if !self.self_mutated.is_empty() || !self.inout.is_empty() {
+            // `&mut self` / `&mut` parameters: the modified fields / parameters are part of the result; a field that is
+            // mutably borrowed into a local (`let (a, b) = self.get_.._mut()`) is written back from that local
             let mut parts: Vec<String> = vec![];
             if v.ty != RTy::Unit { parts.push(v.text.clone()); }
-            parts.extend(self.self_mutated.iter().cloned());
+            for f in &self.self_mutated {
+                let mut text = f.clone();
+                for (c, vars, tf, ef) in &self.writebacks {
+                    if let (Some(i), Some(j)) = (tf.iter().position(|x| x == f), ef.iter().position(|x| x == f)) {
+                        text = if i == j { vars[i].clone() } else { format!("(if {} then {} else {})", c, vars[i], vars[j]) };
+                    }
+                }
+                parts.push(text);
+            }
+            parts.extend(self.inout.iter().cloned());
             return format!("pure {}", tuple(&parts));
         }
         match self.ret_mode {
@@ -252,6 +287,10 @@ impl<'w> FnTr<'w> {
                 Ok(out)
             }
             Expr::Return(r) => self.tr_return(e, r),
+            // a call for its effect on `&mut` arguments as the body of a `match` arm / last statement of a block
+            Expr::Call(_) if !matches!(k, Kont::Return | Kont::Value(_)) => { let mut out = vec![]; self.tr_call_stmt(e, &mut out)?; out.extend(self.finish(None, k)?); Ok(out) }
+            // `panic!()` / `unreachable!()` as the value of a branch: the function panics
+            Expr::Macro(m) if (m.mac.path.is_ident("panic") || m.mac.path.is_ident("unreachable")) => Ok(vec!["none".to_string()]),
             // `{ self.bits |= x }`: an assignment as the (unit) value of a block
             Expr::Assign(a) => { let mut out = vec![]; self.tr_assign(e, &a.left, None, &a.right, &mut out)?; out.extend(self.finish(None, k)?); Ok(out) }
             Expr::Binary(b) if is_compound(&b.op) => { let mut out = vec![]; self.tr_assign(e, &b.left, Some(&b.op), &b.right, &mut out)?; out.extend(self.finish(None, k)?); Ok(out) }
@@ -288,6 +327,40 @@ impl<'w> FnTr<'w> {
                 }
             }
             if contains_return_expr(e) { return Err(self.err(e, "`return`/`?` inside a `let` initialiser")); }
+            // `let (a, b) = self.get_active_and_passive_mut();` (a `What::MutBorrow` method)
+            if let Expr::MethodCall(mc) = strip_paren(e) {
+                let key = (self.target.container.ns().map(|s| s.to_string()), mc.method.to_string());
+                if path_ident(&mc.receiver).as_deref() == Some("self") && mc.args.is_empty() {
+                    if let Some(bi) = self.world.borrows.get(&key).cloned() {
+                        if names.len() != bi.then_fields.len() { return Err(self.err(l, "tuple pattern arity")); }
+                        if self.depth != 1 || self.dup_count > 0 || !self.loop_stack_empty() || self.ret_mode != RetMode::Direct { return Err(self.err(l, "a mutable borrow of fields of `self` is only supported at the top level of the function body")); }
+                        if !self.writebacks.is_empty() { return Err(self.err(l, "second mutable borrow of fields of `self`")); }
+                        let cx = self.tr_expr(&bi.cond, Some(&RTy::Bool))?;
+                        if cx.ty != RTy::Bool { return Err(self.err(l, "borrow condition is not bool")); }
+                        let c = self.fresh("borrow_cond");
+                        out.push(bind_line(&c, &cx));
+                        let mut tvars = vec![];
+                        let mut evars = vec![];
+                        let mut tys = vec![];
+                        for (tf, ef) in bi.then_fields.iter().zip(bi.else_fields.iter()) {
+                            let tv = self.self_field_var(e, tf)?;
+                            let ev = self.self_field_var(e, ef)?;
+                            if tv.ty != ev.ty || !matches!(tv.ty, RTy::Struct(_)) { return Err(self.err(l, "the borrowed fields must be values of the same regenerated struct")); }
+                            self.note_use(&tv.lean); self.note_use(&ev.lean);
+                            tys.push(tv.ty.clone());
+                            tvars.push(tv.lean); evars.push(ev.lean);
+                        }
+                        let mut vs = vec![];
+                        for ((n, _), t) in names.iter().zip(tys.iter()) { vs.push(self.declare(l, n, t.clone(), true, None)?); }
+                        out.push(format!("let ({}) := if {} then ({}) else ({})", vs.join(", "), c, tvars.join(", "), evars.join(", ")));
+                        let lean_of = |fs: &Vec<String>, this: &Self| -> Vec<String> { fs.iter().map(|f| this.lookup(&format!("self.{}", f)).map(|v| v.lean.clone()).unwrap_or_default()).collect() };
+                        let tl = lean_of(&bi.then_fields, self);
+                        let el = lean_of(&bi.else_fields, self);
+                        self.writebacks.push((c, vs, tl, el));
+                        return Ok(false);
+                    }
+                }
+            }
             let (text, monadic, ty) = match e {
                 Expr::If(_) | Expr::Match(_) | Expr::Block(_) => {
                     let (lines, ty) = self.tr_ctl_value(e, ann.as_ref())?;
@@ -381,6 +454,53 @@ impl<'w> FnTr<'w> {
             }
             return Err(self.err(e, "indexed assignment is only supported on list-mode Vec fields"));
         }
+        // `x.f = e` / `x.f op= e` for a mutable local (or `&mut` parameter) `x` that is a value of a regenerated struct
+        if let Expr::Field(fe) = strip_paren(left) {
+            if let (Some(xn), syn::Member::Named(fname)) = (path_ident(&fe.base), &fe.member) {
+                if let Some(xv) = self.lookup(&xn).cloned() {
+                    if let RTy::Struct(sn) = &xv.ty {
+                        if !xv.mutable { return Err(self.err(e, "assignment to a field of an immutable struct value")); }
+                        let fname = fname.to_string();
+                        let fty = self.world.structs[sn].fields.iter().find(|(n, _)| *n == fname).map(|(_, t)| t.clone()).ok_or_else(|| self.err(e, "unknown field"))?;
+                        let fty = self.struct_field_type(&fty, sn).map_err(|m| self.err(e, &m))?;
+                        self.note_use(&xv.lean);
+                        let x = self.new_value(e, &format!("{}.{}", xv.lean, lean_ident(&fname)), &fty, op, right)?;
+                        let tmp = self.fresh("field");
+                        out.push(bind_line(&tmp, &x));
+                        out.push(format!("let {} := {{ {} with {} := {} }}", xv.lean, xv.lean, lean_ident(&fname), tmp));
+                        return Ok(());
+                    }
+                }
+            }
+        }
+        // `*x.m(args) = e` / `*x.m(args) op= e` for a place method `m` (`What::PlaceFn`: `&mut self.field[INDEX]`)
+        if let Expr::Unary(u) = strip_paren(left) {
+            if let (syn::UnOp::Deref(_), Expr::MethodCall(mc)) = (&u.op, strip_paren(&u.expr)) {
+                let xn = path_ident(&mc.receiver).ok_or_else(|| self.err(e, "unsupported assignment target"))?;
+                let xv = self.lookup(&xn).cloned().ok_or_else(|| self.err(e, "assignment through an unknown variable"))?;
+                let sn = match &xv.ty { RTy::Struct(sn) => sn.clone(), _ => return Err(self.err(e, "place method on something that is not a value of a regenerated struct")) };
+                if !xv.mutable { return Err(self.err(e, "assignment through an immutable struct value")); }
+                let pi = self.world.places.get(&(Some(sn.clone()), mc.method.to_string())).cloned().ok_or_else(|| self.err(e, "method is not registered as a place method"))?;
+                let fty = self.world.structs[&sn].fields.iter().find(|(n, _)| *n == pi.field).map(|(_, t)| t.clone()).ok_or_else(|| self.err(e, "unknown field"))?;
+                let el = match self.struct_field_type(&fty, &sn).map_err(|m| self.err(e, &m))? { RTy::VecList(el) => *el, _ => return Err(self.err(e, "place method on a field that is not an array")) };
+                self.note_use(&xv.lean);
+                // the index (evaluates the arguments of the place method)
+                let args: Vec<&Expr> = mc.args.iter().collect();
+                let ix = self.call_translated_pub(e, &pi.index_fn, None, &args)?;
+                let iv = self.fresh("index");
+                out.push(bind_line(&iv, &ix));
+                let arr = format!("{}.{}", xv.lean, lean_ident(&pi.field));
+                let cur = self.fresh("old");
+                out.push(format!("let {} : {} ← vecIdx {} {}", cur, el.lean(), arr, iv));
+                let x = self.new_value(e, &cur, &el, op, right)?;
+                let nv = self.fresh("new");
+                out.push(bind_line(&nv, &x));
+                let na = self.fresh("array");
+                out.push(format!("let {} ← vecSet {} {} {}", na, arr, iv, nv));
+                out.push(format!("let {} := {{ {} with {} := {} }}", xv.lean, xv.lean, lean_ident(&pi.field), na));
+                return Ok(());
+            }
+        }
         let name = match path_ident(left) {
             Some(n) => n,
             None => match self_field(left) {
@@ -391,15 +511,22 @@ impl<'w> FnTr<'w> {
         };
         let v = self.lookup(&name).cloned().ok_or_else(|| self.err(e, "assignment to an unknown variable"))?;
         if !v.mutable { return Err(self.err(e, "assignment to an immutable variable")); }
+        self.note_use(&v.lean);
+        let x = self.new_value(e, &v.lean, &v.ty, op, right)?;
+        out.push(bind_line(&v.lean, &x));
+        Ok(())
+    }
+
+    /// the value stored by `place = right` / `place op= right`, where `cur` is the Lean text of the current value
+    fn new_value(&mut self, e: &Expr, cur: &str, ty: &RTy, op: Option<&BinOp>, right: &Expr) -> Res<Ex> {
         let x = match op {
-            None => self.tr_expr(right, Some(&v.ty))?,
-            Some(op) if v.ty == RTy::U64 => {
-                self.note_use(&v.lean);
+            None => self.tr_expr(right, Some(ty))?,
+            Some(op) if *ty == RTy::U64 => {
                 match op {
                     BinOp::ShlAssign(_) | BinOp::ShrAssign(_) => {
                         let r = self.tr_expr(right, if is_untyped(right) { Some(&RTy::Int(IntTy::I32)) } else { None })?;
                         let amount = match &r.ty { RTy::U64 => format!("(u64ToInt {})", r.a()), RTy::Int(_) => r.a(), _ => return Err(self.err(e, "shift amount is not an integer")) };
-                        Ex::monadic(format!("{} {} {}", if matches!(op, BinOp::ShlAssign(_)) { "u64Shl" } else { "u64Shr" }, v.lean, amount), RTy::U64)
+                        Ex::monadic(format!("{} {} {}", if matches!(op, BinOp::ShlAssign(_)) { "u64Shl" } else { "u64Shr" }, cur, amount), RTy::U64)
                     }
                     _ => {
                         let r = self.tr_expr(right, Some(&RTy::U64))?;
@@ -407,35 +534,49 @@ impl<'w> FnTr<'w> {
                         match op {
                             BinOp::BitAndAssign(_) | BinOp::BitOrAssign(_) | BinOp::BitXorAssign(_) => {
                                 let o = match op { BinOp::BitAndAssign(_) => "&&&", BinOp::BitOrAssign(_) => "|||", _ => "^^^" };
-                                let mut x = Ex::pure(format!("{} {} {}", v.lean, o, r.a()), RTy::U64);
+                                let mut x = Ex::pure(format!("{} {} {}", cur, o, r.a()), RTy::U64);
                                 x.pure = r.pure;
                                 x
                             }
-                            BinOp::AddAssign(_) => Ex::monadic(format!("u64Add {} {}", v.lean, r.a()), RTy::U64),
-                            BinOp::SubAssign(_) => Ex::monadic(format!("u64Sub {} {}", v.lean, r.a()), RTy::U64),
-                            BinOp::MulAssign(_) => Ex::monadic(format!("u64Mul {} {}", v.lean, r.a()), RTy::U64),
+                            BinOp::AddAssign(_) => Ex::monadic(format!("u64Add {} {}", cur, r.a()), RTy::U64),
+                            BinOp::SubAssign(_) => Ex::monadic(format!("u64Sub {} {}", cur, r.a()), RTy::U64),
+                            BinOp::MulAssign(_) => Ex::monadic(format!("u64Mul {} {}", cur, r.a()), RTy::U64),
                             _ => return Err(self.err(e, "unsupported compound assignment")),
                         }
                     }
                 }
             }
             Some(op) => {
-                let t = self.int_of(e, &v.ty)?;
-                let r = self.tr_expr(right, Some(&v.ty))?;
-                if r.ty != v.ty { return Err(self.err(e, "operand type mismatch")); }
-                self.note_use(&v.lean);
+                let t = self.int_of(e, ty)?;
+                let r = self.tr_expr(right, Some(ty))?;
+                if r.ty != *ty { return Err(self.err(e, "operand type mismatch")); }
                 match op {
-                    BinOp::AddAssign(_) => Ex::monadic(format!("chk {} ({} + {})", t.lean(), v.lean, r.a()), v.ty.clone()),
-                    BinOp::SubAssign(_) => Ex::monadic(format!("chk {} ({} - {})", t.lean(), v.lean, r.a()), v.ty.clone()),
-                    BinOp::MulAssign(_) => Ex::monadic(format!("chk {} ({} * {})", t.lean(), v.lean, r.a()), v.ty.clone()),
-                    BinOp::DivAssign(_) => Ex::monadic(format!("div {} {} {}", t.lean(), v.lean, r.a()), v.ty.clone()),
-                    BinOp::RemAssign(_) => Ex::monadic(format!("rem {} {} {}", t.lean(), v.lean, r.a()), v.ty.clone()),
+                    BinOp::AddAssign(_) => Ex::monadic(format!("chk {} ({} + {})", t.lean(), cur, r.a()), ty.clone()),
+                    BinOp::SubAssign(_) => Ex::monadic(format!("chk {} ({} - {})", t.lean(), cur, r.a()), ty.clone()),
+                    BinOp::MulAssign(_) => Ex::monadic(format!("chk {} ({} * {})", t.lean(), cur, r.a()), ty.clone()),
+                    BinOp::DivAssign(_) => Ex::monadic(format!("div {} {} {}", t.lean(), cur, r.a()), ty.clone()),
+                    BinOp::RemAssign(_) => Ex::monadic(format!("rem {} {} {}", t.lean(), cur, r.a()), ty.clone()),
                     _ => return Err(self.err(e, "unsupported compound assignment")),
                 }
             }
         };
-        if x.ty != v.ty { return Err(self.err(e, &format!("assigning {} to a variable of type {}", x.ty.rust(), v.ty.rust()))); }
-        out.push(bind_line(&v.lean, &x));
+        if !x.ty.compat(ty) { return Err(self.err(e, &format!("assigning {} to a place of type {}", x.ty.rust(), ty.rust()))); }
+        Ok(x)
+    }
+
+    /// a call in statement position: `Self::make_castle(active, ..);` (the `&mut` struct arguments are rebound)
+    fn tr_call_stmt(&mut self, e: &Expr, out: &mut Vec<String>) -> Res<()> {
+        self.in_call_stmt = true;
+        self.last_inout.clear();
+        let x = self.tr_expr(e, Some(&RTy::Unit));
+        self.in_call_stmt = false;
+        let x = x?;
+        if x.ty != RTy::Unit { return Err(self.err(e, "value of a call statement is not `()`")); }
+        match &x.m {
+            Some(m) => out.push(format!("let {} ← {}", pat_tuple(&self.last_inout.clone()), m)),
+            None => {}
+        }
+        self.last_inout.clear();
         Ok(())
     }
 
@@ -530,6 +671,14 @@ impl<'w> FnTr<'w> {
             Pat::Wild(_) => Ok(()),
             Pat::Ident(pi) if pi.subpat.is_none() && pi.by_ref.is_none() => {
                 let n = pi.ident.to_string();
+                // a registered (and imported) constant of the scrutinee's type: an equality test
+                if let Some(c) = self.world.consts.get(&(None, n.clone())).cloned() {
+                    if (self.use_leafs.contains(&n) || self.use_glob || c.module == self.target.module || c.file == self.target.file) && self.lookup(&n).is_none() && c.pure && c.ty == *sty && matches!(c.ty, RTy::Int(_) | RTy::U64) {
+                        self.deps.insert(c.module.clone());
+                        tests.push(format!("{} = {}", sv, c.lean));
+                        return Ok(());
+                    }
+                }
                 // an identifier pattern could also be a constant / unit variant: refuse those to avoid guessing
                 if self.world.consts.contains_key(&(None, n.clone())) || n.chars().next().map(|c| c.is_uppercase()).unwrap_or(false) {
                     return Err(self.err(p, "identifier pattern that looks like a constant / variant"));
@@ -702,9 +851,22 @@ impl<'w> FnTr<'w> {
         }
     }
 
+    fn assign_finder(&self) -> AssignFinder {
+        // functions with `&mut` struct parameters: (name, positions among the explicit arguments)
+        let mut inout_fns = vec![];
+        for ((_, name), info) in self.world.fns.iter() {
+            if !info.inout.is_empty() {
+                let has_self = info.rust_params.first().map(|s| s == "self").unwrap_or(false);
+                inout_fns.push((name.clone(), info.inout.iter().map(|i| if has_self { i - 1 } else { *i }).collect()));
+            }
+        }
+        inout_fns.sort();
+        AssignFinder { assigned: vec![], declared: vec![], inout_fns }
+    }
+
     /// outer (already declared) mutable variables assigned inside `e`, in declaration order
     fn assigned_outer_expr(&mut self, e: &Expr) -> Res<Vec<String>> {
-        let mut f = AssignFinder { assigned: vec![], declared: vec![] };
+        let mut f = self.assign_finder();
         f.visit_expr(e);
         self.assigned_outer(e, f)
     }
@@ -766,9 +928,9 @@ impl<'w> FnTr<'w> {
         if bf.found { return Err(self.err(e, "`break`/`continue`")); }
         let has_return = contains_return_stmts(&body.stmts);
         // loop state = outer variables assigned in the body (plus the `for` variable)
-        let mut af = AssignFinder { assigned: vec![], declared: vec![] };
+        let mut af = self.assign_finder();
         af.visit_block(body);
-        if let Some(c) = cond { let mut cf = AssignFinder { assigned: vec![], declared: vec![] }; cf.visit_expr(c); if !cf.assigned.is_empty() { return Err(self.err(c, "assignment inside a loop condition")); } }
+        if let Some(c) = cond { let mut cf = self.assign_finder(); cf.visit_expr(c); if !cf.assigned.is_empty() { return Err(self.err(c, "assignment inside a loop condition")); } }
         let mut state = self.assigned_outer(e, af)?;
         if let Some((iv, _)) = &for_range {
             if state.contains(iv) { return Err(self.err(e, "assignment to the `for` variable")); }
